@@ -1,9 +1,477 @@
+/-
+C17 — local files are read as filter lists only when matching the configured
+safe patterns.  Property theorems only (helper lemmas live in AGH/Lemmas).
+
+Proved here, for ALL pattern lists, locations and oracle values:
+  * a file is opened only for an absolute location, only at its cleaned path,
+    only if a configured pattern matches that path in the DECLARATIVE glob
+    semantics (`C17_only_matching`, with `C17_match_sound`: Go's greedy matcher
+    accepts nothing the pattern language does not);
+  * never with an empty pattern list, never for a non-absolute location;
+  * the same at the three entry points (`C17_entry_points`,
+    `C17_accept_needs_match`, `C17_validate_agrees`);
+  * the cleaned path is the kernel's resolution of the spelling and consists
+    of plain components only (`C17_clean_is_resolution`);
+  * `*`, `?` never cross a separator (`C17_glob_depth`).
+Not proved: completeness of Go's matcher (it is NOT complete: see
+`C17_observation_greedy_incomplete`), and absence of the bad-pattern panic
+(it is NOT absent: see `C17_observation_lazy_pattern_validation`).
+-/
 import AGH.Spec.SafeFS
+import AGH.Lemmas.SafeFSMatch
+import AGH.Lemmas.SafeFSClean
+import AGH.Lemmas.SafeFSDepth
 namespace AGH.C17
 open AGH AGH.Bytes
 
+/-! ### Matching -/
+
+/-- Go's `filepath.Match` is sound for the documented pattern language:
+if it reports a match, the pattern is well-formed and its AST matches the
+whole name (`*`/`?` not crossing `/`). -/
+theorem C17_match_sound (pat name : Bytes) (h : goMatch pat name = .ok true) :
+    ∃ ts, parseGlob pat = some ts ∧ matchesT ts name = true :=
+  matchLoop_sound _ _ _ h
+
+theorem matchAny_true : ∀ (gs : List Bytes) (p : Bytes), matchAny gs p = .ok true →
+    ∃ g ∈ gs, goMatch g p = .ok true := by
+  intro gs
+  induction gs with
+  | nil => intro p h; simp [matchAny] at h
+  | cons g gs ih =>
+    intro p h
+    unfold matchAny at h
+    cases hg : goMatch g p with
+    | error e => rw [hg] at h; cases h
+    | ok b =>
+      rw [hg] at h
+      cases b with
+      | true => exact ⟨g, by simp, hg⟩
+      | false =>
+        obtain ⟨g', hm, hg'⟩ := ih p h
+        exact ⟨g', by simp [hm], hg'⟩
+
+theorem pathMatchesAny_true {pats : List Bytes} {p : Bytes} (h : pathMatchesAny pats p = .ok true) :
+    pats ≠ [] ∧ ∃ g ∈ pats, globMatches g p = true := by
+  unfold pathMatchesAny at h
+  by_cases h0 : pats = []
+  · rw [if_pos h0] at h; cases h
+  · rw [if_neg h0] at h
+    split at h
+    · cases h
+    · obtain ⟨g, hm, hg⟩ := matchAny_true _ _ h
+      exact ⟨h0, g, hm, goMatch_sound hg⟩
+
+/-- The server opens a local file only if the location is absolute, the path
+handed to `os.Open` is its cleaned form, and that path matches one of the
+configured safe patterns. -/
+theorem C17_only_matching (pats : List Bytes) (loc p : Bytes) (h : opens pats loc = some p) :
+    isAbs loc = true ∧ p = pathClean loc ∧ pats ≠ [] ∧ ∃ g ∈ pats, globMatches g p = true := by
+  unfold opens reader at h
+  by_cases ha : isAbs loc = true
+  · simp only [ha, Bool.not_true, Bool.false_eq_true, if_false] at h
+    cases hm : pathMatchesAny pats (pathClean loc) with
+    | error e => rw [hm] at h; cases h
+    | ok b =>
+      rw [hm] at h
+      cases b with
+      | false => cases h
+      | true =>
+        simp only [Option.some.injEq] at h
+        subst h
+        obtain ⟨h0, hg⟩ := pathMatchesAny_true hm
+        exact ⟨ha, rfl, h0, hg⟩
+  · simp [ha] at h
+
+/-- With no patterns configured no local file is read at all. -/
 theorem C17_empty_patterns (loc : Bytes) : opens [] loc = none := by
   unfold opens reader pathMatchesAny
   by_cases h : isAbs loc <;> simp [h]
+
+/-- Relative paths and `file:`, `ftp:` … locations (anything not starting
+with `/`) are never opened as local files: they go to the HTTP client. -/
+theorem C17_nonabs_never_local (pats : List Bytes) (loc : Bytes) (h : isAbs loc = false) :
+    reader pats loc = .http ∧ opens pats loc = none := by
+  simp [opens, reader, h]
+
+/-! ### Cleaning -/
+
+/-- For an absolute spelling `p`: the cleaned path is `/` + the components the
+kernel reaches by walking `p` in a symlink-free tree; all of them are plain
+names (no empty, `.`, `..`, no separator inside), so walking the cleaned path
+changes nothing; and cleaning is idempotent (so `pathMatchesAny`'s "not
+absolute" panic is unreachable from `reader`/`validateFilterURL`). -/
+theorem C17_clean_is_resolution (p : Bytes) (h : isAbs p = true) :
+    pathClean p = slash :: joinWith slash (resolve p) ∧
+    comps (pathClean p) = resolve p ∧
+    (∀ c ∈ resolve p, plainComp c) ∧
+    resolve (pathClean p) = resolve p ∧
+    pathClean (pathClean p) = pathClean p := by
+  have h1 := pathClean_abs h
+  have h2 := resolve_plain p
+  have h3 : comps (pathClean p) = resolve p := by rw [h1]; exact comps_root_join _ h2
+  refine ⟨h1, h3, h2, ?_, pathClean_idem h⟩
+  have : resolve (pathClean p) = walk [] (comps (pathClean p)) := by
+    unfold resolve comps; rw [walk_filter_empty]
+  rw [this, h3, walk_of_plain _ _ h2]; rfl
+
+/-- `reader` and `validateFilterURL` never reach the "not absolute" panic. -/
+theorem C17_no_notabs_panic (pats : List Bytes) (loc : Bytes) (kind : Kind) (urlOK : Bool) :
+    reader pats loc ≠ .panic .notAbs ∧ validateFilterURL pats loc kind urlOK ≠ .panic .notAbs := by
+  have key : isAbs loc = true → pathMatchesAny pats (pathClean loc) ≠ .error .notAbs := by
+    intro ha
+    unfold pathMatchesAny
+    by_cases h0 : pats = []
+    · rw [if_pos h0]; intro h; cases h
+    · rw [if_neg h0]
+      have hc := pathClean_abs ha
+      have habs : isAbs (pathClean loc) = true := by rw [hc]; simp [isAbs]
+      have hid : (pathClean (pathClean loc) != pathClean loc) = false := by
+        rw [pathClean_idem ha]; simp
+      rw [habs, hid]
+      simp only [Bool.not_true, Bool.or_self, Bool.false_eq_true, if_false]
+      generalize pathClean loc = p
+      induction pats with
+      | nil => simp [matchAny]
+      | cons g gs ih =>
+        unfold matchAny
+        cases goMatch g p with
+        | error e => simp
+        | ok b =>
+          cases b with
+          | true => simp
+          | false =>
+            cases gs with
+            | nil => simp [matchAny]
+            | cons g' gs' => exact ih (by simp)
+  constructor
+  · unfold reader
+    by_cases ha : isAbs loc = true
+    · simp only [ha, Bool.not_true, Bool.false_eq_true, if_false]
+      have := key ha
+      cases hm : pathMatchesAny pats (pathClean loc) with
+      | error e =>
+        cases e with
+        | notAbs => exact absurd hm this
+        | badPattern => simp
+      | ok b => cases b <;> simp
+    · simp [ha]
+  · unfold validateFilterURL
+    by_cases ha : isAbs loc = true
+    · simp only [ha, if_true]
+      split
+      · simp
+      · have := key ha
+        cases hm : pathMatchesAny pats (pathClean loc) with
+        | error e =>
+          cases e with
+          | notAbs => exact absurd hm this
+          | badPattern => simp
+        | ok b => cases b <;> simp
+    · simp only [ha, Bool.false_eq_true, if_false]
+      split <;> simp
+
+/-! ### Depth -/
+
+/-- `*` and `?` cannot be used to climb into sub-directories: a path matched
+by a pattern whose classes do not admit `/` has exactly as many separators as
+the pattern has literal ones. -/
+theorem C17_glob_depth (g p : Bytes) (ts : List Term) (hp : parseGlob g = some ts)
+    (hc : noSlashClass ts = true) (hm : globMatches g p = true) :
+    p.count slash = litSlashes ts := by
+  unfold globMatches at hm
+  rw [hp] at hm
+  exact matchesT_depth ts p hc hm
+
+/-! ### Entry points -/
+
+/-- add / set-url validation and the refresh-time check are the same test:
+what validation accepts (for an absolute location) is opened at the cleaned
+path; what the reader would refuse, validation refuses. -/
+theorem C17_validate_agrees (pats : List Bytes) (loc : Bytes) (kind : Kind) (urlOK : Bool)
+    (ha : isAbs loc = true) :
+    (validateFilterURL pats loc kind urlOK = .ok → reader pats loc = .opened (pathClean loc)) ∧
+    (reader pats loc = .noMatch → validateFilterURL pats loc kind urlOK = .errNoMatch ∨
+      validateFilterURL pats loc kind urlOK = .errStat) := by
+  unfold validateFilterURL reader
+  simp only [ha, if_true, Bool.not_true, Bool.false_eq_true, if_false]
+  by_cases hk : kind = .missing
+  · cases hm : pathMatchesAny pats (pathClean loc) with
+    | error e => simp [hk]
+    | ok b => cases b <;> simp [hk]
+  · cases hm : pathMatchesAny pats (pathClean loc) with
+    | error e => simp [hk]
+    | ok b => cases b <;> simp [hk]
+
+theorem download_file {e : Env} {p : Bytes} (h : download e = .ok (some (.file p))) :
+    opens e.pats e.loc = some p ∧ e.kind = .file := by
+  unfold download at h
+  unfold opens
+  cases hr : reader e.pats e.loc with
+  | http => rw [hr] at h; simp only at h; split at h <;> simp at h
+  | noMatch => rw [hr] at h; simp at h
+  | panic q => rw [hr] at h; simp at h
+  | opened q =>
+    rw [hr] at h
+    simp only at h
+    by_cases hk : e.kind = .file
+    · rw [if_pos hk] at h
+      simp only [Except.ok.injEq, Option.some.injEq, Src.file.injEq] at h
+      subst h
+      exact ⟨rfl, hk⟩
+    · rw [if_neg hk] at h; simp at h
+
+/-- At every entry point (add, set-url, refresh): if afterwards the content
+of a local file `p` is in force, then `p` was opened by `reader` under the
+configured patterns — hence all of `C17_only_matching` holds for it. -/
+theorem C17_entry_points (op : Op) (e : Env) (st : Nat) (c : Cls) (p : Bytes) (u : Bool)
+    (h : runOp op e = .done st c (.file p) u) :
+    isAbs e.loc = true ∧ p = pathClean e.loc ∧ e.pats ≠ [] ∧
+      (∃ g ∈ e.pats, globMatches g p = true) ∧ e.kind = .file := by
+  have key : download e = .ok (some (.file p)) →
+      isAbs e.loc = true ∧ p = pathClean e.loc ∧ e.pats ≠ [] ∧
+      (∃ g ∈ e.pats, globMatches g p = true) ∧ e.kind = .file := by
+    intro hd
+    obtain ⟨ho, hk⟩ := download_file hd
+    obtain ⟨h1, h2, h3, h4⟩ := C17_only_matching _ _ _ ho
+    exact ⟨h1, h2, h3, h4, hk⟩
+  unfold runOp at h
+  cases hce : confError e.pats 0 with
+  | some i => rw [hce] at h; cases h
+  | none =>
+    rw [hce] at h
+    simp only at h
+    cases op with
+    | add =>
+      simp only at h
+      cases hv : validateFilterURL e.pats e.loc e.kind e.urlOK with
+      | ok =>
+        rw [hv] at h
+        simp only at h
+        cases hd : download e with
+        | error q => rw [hd] at h; cases h
+        | ok o =>
+          rw [hd] at h
+          cases o with
+          | none => simp at h
+          | some s =>
+            simp only [Obs.done.injEq] at h
+            rw [h.2.2.1] at hd
+            exact key hd
+      | errStat => rw [hv] at h; simp [vcls] at h
+      | errNoMatch => rw [hv] at h; simp [vcls] at h
+      | errURL => rw [hv] at h; simp [vcls] at h
+      | panic q => rw [hv] at h; cases h
+    | setURL =>
+      simp only at h
+      cases hv : validateFilterURL e.pats e.loc e.kind e.urlOK with
+      | ok =>
+        rw [hv] at h
+        simp only at h
+        by_cases hen : e.enabled = true
+        · rw [if_pos hen] at h
+          cases hd : download e with
+          | error q => rw [hd] at h; cases h
+          | ok o =>
+            rw [hd] at h
+            cases o with
+            | none => simp at h
+            | some s =>
+              simp only [Obs.done.injEq] at h
+              rw [h.2.2.1] at hd
+              exact key hd
+        · rw [if_neg hen] at h; simp at h
+      | errStat => rw [hv] at h; simp [vcls] at h
+      | errNoMatch => rw [hv] at h; simp [vcls] at h
+      | errURL => rw [hv] at h; simp [vcls] at h
+      | panic q => rw [hv] at h; cases h
+    | refresh =>
+      simp only at h
+      cases hd : download e with
+      | error q => rw [hd] at h; cases h
+      | ok o =>
+        rw [hd] at h
+        cases o with
+        | none => simp at h
+        | some s =>
+          simp only [Obs.done.injEq] at h
+          rw [h.2.2.1] at hd
+          exact key hd
+
+theorem validate_ok_abs {pats : List Bytes} {loc : Bytes} {kind : Kind} {urlOK : Bool}
+    (hv : validateFilterURL pats loc kind urlOK = .ok) (ha : isAbs loc = true) :
+    matchesSome pats (pathClean loc) = true := by
+  unfold validateFilterURL at hv
+  simp only [ha, if_true] at hv
+  split at hv
+  · cases hv
+  · cases hm : pathMatchesAny pats (pathClean loc) with
+    | error q => rw [hm] at hv; cases hv
+    | ok b =>
+      rw [hm] at hv
+      cases b with
+      | false => cases hv
+      | true =>
+        obtain ⟨_, g, hg, hgm⟩ := pathMatchesAny_true hm
+        simp only [matchesSome, List.any_eq_true]
+        exact ⟨g, hg, hgm⟩
+
+/-- Enforced when a list is added and when its URL is edited: an absolute
+location is accepted (status 200) only if its cleaned form matches one of the
+configured patterns — also for a disabled list, where nothing is read. -/
+theorem C17_accept_needs_match (op : Op) (e : Env) (c : Cls) (s : Src) (u : Bool)
+    (hop : op = .add ∨ op = .setURL) (h : runOp op e = .done 200 c s u) (ha : isAbs e.loc = true) :
+    matchesSome e.pats (pathClean e.loc) = true := by
+  unfold runOp at h
+  cases hce : confError e.pats 0 with
+  | some i => rw [hce] at h; cases h
+  | none =>
+    rw [hce] at h
+    simp only at h
+    cases hv : validateFilterURL e.pats e.loc e.kind e.urlOK with
+    | ok => exact validate_ok_abs hv ha
+    | errStat => rcases hop with rfl | rfl <;> (rw [hv] at h; simp [vcls] at h)
+    | errNoMatch => rcases hop with rfl | rfl <;> (rw [hv] at h; simp [vcls] at h)
+    | errURL => rcases hop with rfl | rfl <;> (rw [hv] at h; simp [vcls] at h)
+    | panic q => rcases hop with rfl | rfl <;> (rw [hv] at h; cases h)
+
+/-- The model satisfies the monitor that the driver evaluates on the
+implementation, for every entry point, configuration, location and oracle. -/
+theorem C17_model_meets_spec (op : Op) (e : Env) : specOK op e (runOp op e) = true := by
+  unfold specOK specWhy
+  cases hr : runOp op e with
+  | confErr i => rfl
+  | panic p => rfl
+  | done st c src u =>
+    simp only
+    have hsrc : srcWhy e src = none := by
+      unfold srcWhy
+      cases src with
+      | file p =>
+        obtain ⟨h1, h2, h3, ⟨g, hg, hgm⟩, _⟩ := C17_entry_points op e st c p u hr
+        have hms : matchesSome e.pats p = true := by
+          simp only [matchesSome, List.any_eq_true]; exact ⟨g, hg, hgm⟩
+        have hne : e.pats.isEmpty = false := by
+          cases hp : e.pats with
+          | nil => exact absurd hp h3
+          | cons a b => rfl
+        subst h2
+        simp [h1, hne, hms]
+      | unknown =>
+        -- the model never stores unknown content
+        exfalso
+        unfold runOp at hr
+        cases hce : confError e.pats 0 with
+        | some i => rw [hce] at hr; cases hr
+        | none =>
+          rw [hce] at hr
+          have hd : ∀ s, download e = .ok (some s) → s ≠ .unknown := by
+            intro s hd
+            unfold download at hd
+            cases hrd : reader e.pats e.loc with
+            | http => rw [hrd] at hd; simp only at hd; split at hd <;> simp at hd; rw [← hd]; simp
+            | noMatch => rw [hrd] at hd; simp at hd
+            | panic q => rw [hrd] at hd; simp at hd
+            | opened q => rw [hrd] at hd; simp only at hd; split at hd <;> simp at hd; rw [← hd]; simp
+          simp only at hr
+          cases op with
+          | add =>
+            simp only at hr
+            cases hv : validateFilterURL e.pats e.loc e.kind e.urlOK with
+            | ok =>
+              rw [hv] at hr; simp only at hr
+              cases hdl : download e with
+              | error q => rw [hdl] at hr; cases hr
+              | ok o =>
+                rw [hdl] at hr
+                cases o with
+                | none => simp at hr
+                | some s => simp only [Obs.done.injEq] at hr; exact hd s hdl hr.2.2.1
+            | errStat => rw [hv] at hr; simp [vcls] at hr
+            | errNoMatch => rw [hv] at hr; simp [vcls] at hr
+            | errURL => rw [hv] at hr; simp [vcls] at hr
+            | panic q => rw [hv] at hr; cases hr
+          | setURL =>
+            simp only at hr
+            cases hv : validateFilterURL e.pats e.loc e.kind e.urlOK with
+            | ok =>
+              rw [hv] at hr; simp only at hr
+              by_cases hen : e.enabled = true
+              · rw [if_pos hen] at hr
+                cases hdl : download e with
+                | error q => rw [hdl] at hr; cases hr
+                | ok o =>
+                  rw [hdl] at hr
+                  cases o with
+                  | none => simp at hr
+                  | some s => simp only [Obs.done.injEq] at hr; exact hd s hdl hr.2.2.1
+              · rw [if_neg hen] at hr; simp at hr
+            | errStat => rw [hv] at hr; simp [vcls] at hr
+            | errNoMatch => rw [hv] at hr; simp [vcls] at hr
+            | errURL => rw [hv] at hr; simp [vcls] at hr
+            | panic q => rw [hv] at hr; cases hr
+          | refresh =>
+            simp only at hr
+            cases hdl : download e with
+            | error q => rw [hdl] at hr; cases hr
+            | ok o =>
+              rw [hdl] at hr
+              cases o with
+              | none => simp at hr
+              | some s => simp only [Obs.done.injEq] at hr; exact hd s hdl hr.2.2.1
+      | none => rfl
+      | old => rfl
+      | http => rfl
+    rw [hsrc]
+    simp only
+    by_cases hc : (op = .add ∨ op = .setURL) ∧ st = 200 ∧ isAbs e.loc = true ∧
+        (!matchesSome e.pats (pathClean e.loc)) = true
+    · exfalso
+      obtain ⟨hop, hst, ha, hn⟩ := hc
+      subst hst
+      have := C17_accept_needs_match op e c src u hop hr ha
+      rw [this] at hn; cases hn
+    · rw [if_neg hc]; rfl
+
+/-! ### Observations about the unchanged code (not violations of C17: a crash
+or a refusal reads nothing) -/
+
+/-- `filtering.New` validates a pattern with `filepath.Match(p, "test")`, and
+`Match` stops at the first chunk that does not match: the malformed pattern
+`/a*[` is accepted at start-up, and a later request for the existing path `/a`
+makes `pathMatchesAny` panic ("bad pattern"). -/
+theorem C17_observation_lazy_pattern_validation :
+    confError [[47, 97, 42, 91]] 0 = none ∧
+    goMatch [47, 97, 42, 91] [47, 97] = .error .badPattern ∧
+    reader [[47, 97, 42, 91]] [47, 97] = .panic .badPattern := by
+  decide
+
+/-- Go's matcher commits to the leftmost match of a chunk, and character
+classes (unlike `*`, `?`) may match `/`: the name `[]/x` matches the AST of
+`*[/[]*` (star = `[]`, class = `/`, star = `x`), yet `filepath.Match` says
+no.  The matcher is sound, not complete; the property needs soundness only. -/
+theorem C17_observation_greedy_incomplete :
+    globMatches [42, 91, 47, 91, 93, 42] [91, 93, 47, 120] = true ∧
+    goMatch [42, 91, 47, 91, 93, 42] [91, 93, 47, 120] = .ok false := by
+  decide
+
+/-! ### Non-vacuity: the hypotheses above are met by concrete, non-trivial cases -/
+
+-- "/s/*.txt" opens "/s/a.txt" when spelled "/s/x/../a.txt"
+example : opens [[47, 115, 47, 42, 46, 116, 120, 116]] [47, 115, 47, 120, 47, 46, 46, 47, 97, 46, 116, 120, 116]
+    = some [47, 115, 47, 97, 46, 116, 120, 116] := by decide
+-- … but not "/s/../o/a.txt", nor "/s/d/a.txt" (the star does not cross "/")
+example : opens [[47, 115, 47, 42, 46, 116, 120, 116]] [47, 115, 47, 46, 46, 47, 111, 47, 97, 46, 116, 120, 116] = none := by
+  decide
+example : opens [[47, 115, 47, 42, 46, 116, 120, 116]] [47, 115, 47, 100, 47, 97, 46, 116, 120, 116] = none := by decide
+-- an add of an existing matching file succeeds and puts that file in force
+example : runOp .add (⟨[[47, 115, 47, 42]], [47, 115, 47, 47, 97], .file, false, false, true⟩ : Env)
+    = .done 200 .ok (.file [47, 115, 47, 97]) true := by decide
+-- a pattern with a class that admits "/" really lets a name with one more separator through
+example : goMatch [97, 91, 94, 120, 93, 98] [97, 47, 98] = .ok true ∧
+    noSlashClass [.lit 97, .cls true [(120, 120)], .lit 98] = false := by decide
+-- the depth theorem applies to "/s/*.txt"
+example : parseGlob [47, 115, 47, 42, 46, 116, 120, 116] =
+    some [.lit 47, .lit 115, .lit 47, .star, .lit 46, .lit 116, .lit 120, .lit 116] := by decide
 
 end AGH.C17
